@@ -18,7 +18,15 @@ ExtractError.
 import re, sys, os
 sys.path.insert(0, os.path.dirname(os.path.abspath(__file__)))
 from common import *
-from rustexpr import tokenize, _match_brace
+from rustexpr import tokenize, _match_brace, find_fn
+
+
+def bound_once(text, name, what):
+    """exactly one `let [mut] name` in `text`: a second (shadowing) binding would change the value that reaches the closure
+    without changing the statement that is translated"""
+    k = len(re.findall(r"\blet\s+(?:mut\s+)?" + re.escape(name) + r"\b", text))
+    if k != 1:
+        raise ExtractError(f"{what}: {k} bindings of `{name}` (exactly one expected)")
 
 
 class P:
@@ -96,8 +104,17 @@ class P:
 
 
 def run():
-    qs = strip_rust_comments(src("src/qsieve.rs"))
+    qs_file = strip_rust_comments(src("src/qsieve.rs"))
+    qs = find_fn(src("src/qsieve.rs"), "qsieve")            # only the body of `pub fn qsieve`
+    if len(re.findall(r"\bnext_lgblock\b", qs_file)) != len(re.findall(r"\bnext_lgblock\b", qs)):
+        raise ExtractError("next_lgblock is mentioned outside qsieve()")
+    for name in ("large_block_size", "large_blksz_modp", "primes", "next_lgblock", "roots_fwd1", "roots_fwd2", "roots_bck1", "roots_bck2"):
+        bound_once(qs, name, "qsieve()")
+    if re.search(r"(?<!let )(?<!let mut )\b(large_block_size|large_blksz_modp|primes)\s*(\+|-|\*|/|%|<<|>>|\^|\||&)?=(?!=)", qs):
+        raise ExtractError("qsieve(): large_block_size / large_blksz_modp / primes is assigned after its binding")
     sv = strip_rust_comments(src("src/sieve.rs"))
+    if len(re.findall(r"\bconst BLOCK_SIZE\b", sv)) != 1:
+        raise ExtractError("sieve::BLOCK_SIZE defined more than once")
     blk = must(r"pub const BLOCK_SIZE: usize = ([^;]+);", sv, "sieve::BLOCK_SIZE").group(1)
     mb = re.fullmatch(r"\s*(\d+)\s*\*\s*(\d+)\s*", blk)
     block_size = int(mb.group(1)) * int(mb.group(2)) if mb else int_lit(blk)
@@ -126,6 +143,7 @@ def run():
     env = {"large_blksz_modp[i]": "o", "primes[i]": "p", "roots1[i]": "r1", "roots2[i]": "r2"}
     out1 = out2 = None
     lets = []
+    bound = set()
     for st in [s.strip() for s in mf.group(1).split(";") if s.strip()]:
         toks = tokenize(st)
         if toks[0].text == "let":
@@ -137,6 +155,10 @@ def run():
             e = pr.expr()
             pr.eat(kind="eof")
             pat = mm.group(1)
+            for nm in re.findall(r"\w+", pat):
+                if nm in bound or nm in ("roots1", "roots2", "large_blksz_modp", "primes", "i"):
+                    raise ExtractError(f"next_lgblock: `{nm}` is bound twice / shadows an input")
+                bound.add(nm)
             if pat.startswith("("):
                 a, b = [x.strip() for x in pat[1:-1].split(",")]
                 name = f"{a}_{b}"
